@@ -1,6 +1,7 @@
 import JunoModel.Common.Proto
 import JunoModel.C06.Model
 import JunoModel.C06.ModelFeed
+import JunoModel.C06.ModelFeedConc
 import JunoModel.C06.ModelStore
 import JunoModel.C06.ModelStatus
 import JunoModel.C06.ModelClasses
@@ -31,6 +32,10 @@ and root 0). Chains are written GENESIS FIRST.
   feed-init fresh|len     fresh feed model (id scheme; `fresh` is the code)                          -> ok
   feed sub K | feed unsub H | feed send V | feed recv H   one feed operation (K = keep-last 0/1, H = handle)
                           -> h<handle> | ok | val V | empty | closed | bad-handle
+  feedc lock|snap C* | P*   the CONCURRENT feed machine (`ModelFeedConc.lean`): channels `K:B:C` (keep-last 0/1,
+                          slot `-`|value, closed 0/1), goroutines `send:V` `unsub:H` `sub:K` `recv:H`; every
+                          outcome reachable under SOME schedule, sorted, separated by ` ; `
+                          -> outcome = `panic` | `ch=<slot><o|c>,… new=<k|p><slot><o|c>,… rd=<v|-|c>,…[ stuck]`
   cfg Z N C V L           model variant (zeroGuard numCheck confirmHead verifyAns confirmLatest, 0/1);
                           default = `Cfg.asFound`; the acceptor's mode is `Cfg.mode`                  -> ok
   impl-init B*            start the event machine `Impl` with this chain                            -> ok
@@ -150,6 +155,59 @@ def feedOp? : List String → Option Feed.Op
   | ["send", v] => v.toNat?.map .send
   | ["recv", h] => h.toNat?.map .recv
   | _ => none
+
+/-! concurrent feed machine -/
+
+def slot? (s : String) : Option (Option Nat) :=
+  if s == "-" then some none else s.toNat?.map some
+
+def cchan? (s : String) : Option FeedConc.Chan :=
+  match s.splitOn ":" with
+  | [k, b, c] => do pure ⟨← bit? k, ← slot? b, ← bit? c⟩
+  | _ => none
+
+def cpc? (s : String) : Option FeedConc.Pc :=
+  match s.splitOn ":" with
+  | ["send", v] => v.toNat?.map .snd0
+  | ["unsub", h] => h.toNat?.map .un0
+  | ["sub", k] => (bit? k).map .sub0
+  | ["recv", h] => h.toNat?.map .rcv
+  | _ => none
+
+def allSome {α β : Type} (f : α → Option β) : List α → Option (List β)
+  | [] => some []
+  | x :: xs => do pure ((← f x) :: (← allSome f xs))
+
+def showSlot (c : FeedConc.Chan) : String :=
+  (match c.buf with | some v => toString v | none => "-") ++ (if c.closed then "c" else "o")
+
+def insertSorted (x : String) : List String → List String
+  | [] => [x]
+  | y :: ys => if x ≤ y then x :: y :: ys else y :: insertSorted x ys
+
+def sortStrings (xs : List String) : List String := xs.foldr insertSorted []
+
+/-- what the harness can observe of a final state: the channels that existed at the start in order,
+the new ones as a sorted multiset (concurrent subscribers cannot be told apart otherwise), what each
+reader got, and whether some goroutine is stuck -/
+def showOutcome (n0 : Nat) (s : FeedConc.St) : String :=
+  if s.panicked then "panic" else
+  let old := (s.chans.take n0).map showSlot
+  let new := sortStrings ((s.chans.drop n0).map (fun c => (if c.keepLast then "k" else "p") ++ showSlot c))
+  let rd := s.pcs.filterMap (fun p => match p with
+    | .rcvD _ (.val v) => some (toString v)
+    | .rcvD _ .empty => some "-"
+    | .rcvD _ .closed => some "c"
+    | _ => none)
+  let stuck := s.pcs.any (fun p => match p with | .idle => false | .rcvD _ _ => false | _ => true)
+  "ch=" ++ ",".intercalate old ++ " new=" ++ ",".intercalate new ++ " rd=" ++ ",".intercalate rd ++
+    (if stuck then " stuck" else "")
+
+def feedConc (var : FeedConc.Variant) (cs ps : List String) : Option String := do
+  let chans ← allSome cchan? cs
+  let pcs ← allSome cpc? ps
+  let outs := FeedConc.outcomes var (FeedConc.start chans pcs)
+  pure (" ; ".intercalate (FeedConc.dedup (sortStrings (outs.map (showOutcome chans.length)))))
 
 def stepSpec (cfg : Cfg) (m : Mode) (s : Spec) (line : String) : Spec × String :=
   match words line with
@@ -368,6 +426,16 @@ def stepLine (st : St) (line : String) : St × String :=
     match feedOp? ws with
     | none => (st, "bad-op")
     | some op => let r := Feed.step st.gen st.feed op; ({ st with feed := r.1 }, showFeedOut r.2)
+  | "feedc" :: v :: ws =>
+    let (cs, ps) := splitBar ws
+    let var? : Option FeedConc.Variant :=
+      if v == "lock" then some .underLock else if v == "snap" then some .snapshotThenSend else none
+    match var? with
+    | none => (st, "bad-op")
+    | some var =>
+      match feedConc var cs ps with
+      | some out => (st, out)
+      | none => (st, "bad-op")
   | ["cfg?"] =>
     (st, s!"{st.cfg.zeroGuard} {st.cfg.numCheck} {st.cfg.confirmHead} {st.cfg.verifyAns} {st.cfg.confirmLatest}")
   | _ =>
